@@ -97,9 +97,11 @@ class C13:
         env = E.make_env(cfg)
         b = rc.choice([1, 2, 2, 3])
         rows = E.gen_rows(env, cfg, b, st.torch_seed("instances"))
+        warm = E.gen_rows(env, cfg, b, st.torch_seed("warm")) if rc.random() < 0.5 else []
         scorer = {"kind": "am", "seed": rc.randrange(1 << 30)} if use_am else \
             {"kind": "scripted", "mode": rc.choice(["gaussian", "gaussian", "ties"]), "seed": rc.randrange(1 << 30)}
         return {"cfg": cfg, "instances": [E.enc_row(r) for r in rows], "scorer": scorer,
+                "warm": [E.enc_row(r) for r in warm],
                 "width_frac": rc.random(), "width_max": bool(rc.random() < 0.25),
                 "temperature": rc.choice([0.5, 1.0, 1.0, 2.0]), "tanh": rc.choice([0, 0, 10]),
                 "select_best": bool(rc.random() < 0.5), "torch_seed": rc.randrange(1 << 30)}
@@ -170,6 +172,17 @@ class C13:
         run.stats[f"runs:{scope}"] += 1
         run.stats[f"width:{min(W, 9)}{'+' if W >= 9 else ''}"] += 1
         cap = 6 * int(reset_mask.shape[-1]) + 60
+
+        # ---- perturbation "policy reuse": the same policy object first searches another batch of the same
+        # shape (a policy serves consecutive batches in evaluation); anything it keeps must not leak
+        if plan.get("warm"):
+            wrows = [E.dec_row(r) for r in plan["warm"]]
+            torch.manual_seed(plan["torch_seed"] + 1)
+            with run.guard(scope, "policy forward on a previous batch (beam_search)", promise=False):
+                policy(E.reset(env, cfg, wrows), env, phase="test", decode_type="beam_search", beam_width=W,
+                       select_best=False, max_steps=cap, **dk)
+            run.fault("policy_reuse")
+            run.nontrivial = True
 
         # ---- run A: all beams ----------------------------------------------------------------------
         torch.manual_seed(plan["torch_seed"])
